@@ -18,9 +18,13 @@ bookkeeping, db-version rows; `outbox`: everything handed to the broadcast queue
 below therefore means: rows, `crsql_changes`, version counter, bookkeeping and outbox all unchanged.
 `Good n` is the invariant of a node that has only ever been written through `submit`
 (`reachable_good`); it holds of a fresh node and is what the theorems about announced changes need
-(sequence numbers of one version are pairwise distinct).
+(sequence numbers of one version are pairwise distinct).  Histories may also contain complete versions
+of OTHER actors ingested in between (`Event.remote`, `runE`): version numbers are per actor, a remote
+version with the very number of the node's next own version changes nothing of the above
+(`remote_keeps_own`, `reachable_good_with_remote`, `acked_versions_consecutive_with_remote`).
 -/
 import Corro.Lemmas.LocalTx
+import Corro.Lemmas.LocalTxRemote
 
 namespace Corro.LocalTx
 open Corro.Crdt Corro.Node
@@ -268,5 +272,108 @@ example : (Ex.out.2.map fun r => match r with | .ack _ chs _ => chs | _ => []).g
 /-- version 2 is announced as `0-3` and `4-5` of last_seq 5 -/
 example : (announce Ex.cfg 2 Ex.chs2).map (fun m => (m.lo, m.hi, m.last, m.changes.map (·.seq))) =
     [(0, 3, 5, [1, 3]), (4, 5, 5, [4, 5])] := by decide
+
+
+/-! ### remote versions in between -/
+
+/-- every remote change of a history comes from another actor than node `i` -/
+def Foreign (i : Nat) : List Event → Prop
+  | [] => True
+  | .req _ :: es => Foreign i es
+  | .remote chs :: es => (∀ c ∈ chs, c.site ≠ i) ∧ Foreign i es
+
+/-- **Remote versions are not the node's own.**  Ingesting a complete version of another actor
+leaves the node's own version counter, own bookkeeping and outbox untouched (version numbers are per
+actor), and keeps the invariant `Good`. -/
+theorem remote_keeps_own (n : LNode) (hg : Good n) (chs : List Chg) (hc : ∀ c ∈ chs, c.site ≠ n.node.id) :
+    Good (n.remote chs) ∧ (n.remote chs).own = n.own ∧
+    (n.remote chs).node.db.dbv = n.node.db.dbv ∧ (n.remote chs).outbox = n.outbox :=
+  ⟨good_remote hg hc, remote_own n chs, remote_dbv n chs, rfl⟩
+
+theorem remote_id (n : LNode) (chs : List Chg) : (n.remote chs).node.id = n.node.id :=
+  (mergeChanges_fields chs n.node).2.1
+
+theorem submit_id (cfg : Cfg) (n : LNode) (req : Request) : (submit cfg n req).1.node.id = n.node.id := by
+  cases submit_outcome cfg n req with
+  | failed _ _ h' => rw [h']
+  | noop _ _ _ h' => rw [h']
+  | acked _ _ _ _ _ h' => rw [h']; simp only [ackNode_id]
+
+/-- every node reached from a fresh one by any interleaving of local requests and remote versions
+of other actors satisfies the invariant — so `tx_changes_attributed`, `broadcast_tiles` and
+`broadcast_covers_once` apply to every local request of such a history -/
+theorem reachable_good_with_remote (cfg : Cfg) (es : List Event) (n : LNode) (hg : Good n)
+    (hf : Foreign n.node.id es) : Good (runE cfg n es).1 := by
+  induction es generalizing n with
+  | nil => exact hg
+  | cons e es ih =>
+    cases e with
+    | req r =>
+      simp only [runE]
+      exact ih _ (good_submit cfg hg r) (by rw [submit_id]; exact hf)
+    | remote chs =>
+      simp only [runE]
+      exact ih _ (good_remote hg hf.1) (by rw [remote_id]; exact hf.2)
+
+/-- **No gap, no repeat, with remote versions in between.**  Over any history the acknowledged
+versions are `dbv+1 .. dbv+k` in order and the own counter ends at `dbv+k`: remote versions — whatever
+their numbers — consume none of the node's own. -/
+theorem acked_versions_consecutive_with_remote (cfg : Cfg) (es : List Event) (n : LNode) :
+    ackedVersions (runE cfg n es).2 =
+      List.range' (n.node.db.dbv + 1) (ackedVersions (runE cfg n es).2).length ∧
+    (runE cfg n es).1.node.db.dbv = n.node.db.dbv + (ackedVersions (runE cfg n es).2).length := by
+  induction es generalizing n with
+  | nil => simp [runE, ackedVersions]
+  | cons e es ih =>
+    cases e with
+    | remote chs =>
+      have ih' := ih (n.remote chs)
+      rw [remote_dbv] at ih'
+      simpa only [runE] using ih'
+    | req r =>
+      have ih' := ih (submit cfg n r).1
+      simp only [runE, ackedVersions] at ih' ⊢
+      cases hr : (submit cfg n r).2 with
+      | ack v chs msgs =>
+        have hv := ack_version_succ cfg n r v chs msgs hr
+        rw [hv.2.1, hv.1] at ih'
+        simp only [List.filterMap_cons, Response.version?, List.length_cons, List.range'_succ]
+        constructor
+        · rw [hv.1]; congr 1; exact ih'.1
+        · rw [ih'.2]; omega
+      | noop =>
+        have hs := unacknowledged_no_effect cfg n r (by rw [hr]; rfl)
+        rw [hs] at ih' ⊢
+        rw [List.filterMap_cons_none (by rfl : Response.version? Response.noop = none)]
+        exact ih'
+      | err e =>
+        have hs := unacknowledged_no_effect cfg n r (by rw [hr]; rfl)
+        rw [hs] at ih' ⊢
+        rw [List.filterMap_cons_none (by rfl : Response.version? (Response.err e) = none)]
+        exact ih'
+
+/-- … and the node never needs a version of its own, its head being the number of acknowledged
+requests, whatever remote versions arrived in between -/
+theorem own_never_needed_with_remote (cfg : Cfg) (i : Nat) (es : List Event) (hf : Foreign i es) :
+    (runE cfg (LNode.fresh i) es).1.own.needed = [] ∧
+    (runE cfg (LNode.fresh i) es).1.own.max = (ackedVersions (runE cfg (LNode.fresh i) es).2).length := by
+  have hg := reachable_good_with_remote cfg es (LNode.fresh i) (good_fresh i) hf
+  have hv := (acked_versions_consecutive_with_remote cfg es (LNode.fresh i)).2
+  refine ⟨hg.needed, ?_⟩
+  rw [hg.max, hv]
+  simp [LNode.fresh, Node.fresh]
+
+/-- a remote version 1 with 4 changes on a fresh node, a no-op, then the node's own version 1 -/
+def Ex.remote1 : List Chg :=
+  [⟨"t", "1", "a", .int 1, 1, 1, 1, 1, 0⟩, ⟨"t", "1", "b", .int 1, 1, 1, 1, 1, 1⟩,
+   ⟨"t", "2", "a", .int 2, 1, 1, 1, 1, 2⟩, ⟨"t", "2", "b", .int 2, 1, 1, 1, 1, 3⟩]
+example : Foreign 0 [.remote Ex.remote1, .req [.sql (.upd "t" "9" [("a", .int 1)])], .req [Ex.insK]] := by
+  simp [Foreign, Ex.remote1]
+example : (runE Ex.cfg (LNode.fresh 0)
+      [.remote Ex.remote1, .req [.sql (.upd "t" "9" [("a", .int 1)])], .req [Ex.insK]]).2.map
+    Response.version? = [none, some 1] := by decide
+example : (runE Ex.cfg (LNode.fresh 0)
+      [.remote Ex.remote1, .req [.sql (.upd "t" "9" [("a", .int 1)])], .req [Ex.insK]]).1.outbox.map
+    (fun e => (e.1, e.2.map (fun m => (m.lo, m.hi, m.last)))) = [(1, [(0, 0, 0)])] := by decide
 
 end Corro.LocalTx
